@@ -67,6 +67,12 @@ func bufferWrites(fn *ssa.Function) (writes []bufWrite, buf ssa.Value, ok bool, 
 	if !straight {
 		return nil, nil, false, "writes are not straight-line (branch or loop around a write)"
 	}
+	if len(calls) == 0 {
+		// the append style: b = binary.LittleEndian.AppendUint16(b, v); ...; b = append(b, data...)
+		if ws, end, ok := appendChain(fn); ok {
+			return ws, end, true, ""
+		}
+	}
 	sizes := types.SizesFor("gc", "amd64")
 	for _, op := range calls {
 		call := op.call
@@ -140,7 +146,23 @@ func c16Layout(c *Ctx) {
 		// the body may be assembled by a shared helper: createPacket(T, helper(status, ...))
 		bodyFn := fn
 		statusParam := ssa.Value(fn.Params[bi.StatusIdx])
+		// ... or the whole packet by a generic builder: return p.result(T, status)
+		wholeHelper := false
 		for _, r := range returnsOf(fn) {
+			if hc, ok := r.Results[0].(*ssa.Call); ok && calleeName(hc) != protoPkg+".createPacket" {
+				if h := hc.Call.StaticCallee(); h != nil && IsFirstParty(h) && h.Blocks != nil {
+					for j, a := range hc.Call.Args {
+						if a == statusParam && j < len(h.Params) {
+							bodyFn, statusParam, wholeHelper = h, h.Params[j], true
+						}
+					}
+				}
+			}
+		}
+		for _, r := range returnsOf(fn) {
+			if wholeHelper {
+				break
+			}
 			if cp, ok := r.Results[0].(*ssa.Call); ok {
 				if hc, ok := strip(arg(cp, 1)).(*ssa.Call); ok {
 					if h := hc.Call.StaticCallee(); h != nil && IsFirstParty(h) && h.Blocks != nil && calleeName(hc) != "(*bytes.Buffer).Bytes" {
@@ -162,7 +184,7 @@ func c16Layout(c *Ctx) {
 		bodyOK := false
 		for _, r := range returnsOf(bodyFn) {
 			var by *ssa.Call
-			if bodyFn == fn {
+			if bodyFn == fn || wholeHelper {
 				if cp, ok := r.Results[0].(*ssa.Call); ok {
 					by, _ = strip(arg(cp, 1)).(*ssa.Call)
 				}
@@ -300,6 +322,9 @@ func c16HeaderAs(c *Ctx, rule string) {
 	for _, r := range returnsOf(fn) {
 		if by, ok := strip(r.Results[0]).(*ssa.Call); ok && calleeName(by) == "(*bytes.Buffer).Bytes" && recvOf(by) == buf && dominatesInstr(writes[3].call, by) {
 			retOK = true
+		}
+		if strip(unspill(r.Results[0])) == buf && buf == ssa.Value(writes[3].call) {
+			retOK = true // append style: the returned slice is the end of the chain
 		}
 	}
 	c.Check(retOK, rule, "createPacket result", fn.Pos(), "returns the buffer's bytes after all writes", "does not return the assembled buffer")
@@ -593,14 +618,8 @@ func nestedInitStores(alloc ssa.Value) map[string][]ssa.Value {
 		}
 	}
 	collect(alloc, "")
-	if alloc.Referrers() != nil {
-		for _, r := range *alloc.Referrers() {
-			if s, ok := r.(*ssa.Store); ok && s.Addr == alloc {
-				if src, ok := loadAddr(s.Val); ok {
-					collect(src, "")
-				}
-			}
-		}
+	for _, src := range copiedFrom(alloc) {
+		collect(src, "")
 	}
 	return out
 }
@@ -668,4 +687,57 @@ func c16PolicyWiringAs(c *Ctx, rule string, only map[string]bool) {
 	} else {
 		c.Floor(rule, len(only), "selected policy fields")
 	}
+}
+
+// appendChain: the function returns a byte slice grown by a straight chain of
+// binary.LittleEndian.AppendUintN(b, v) and append(b, data...) calls from an empty slice; returns
+// the writes in order and the final value.
+func appendChain(fn *ssa.Function) (writes []bufWrite, end ssa.Value, ok bool) {
+	rets := returnsOf(fn)
+	if len(rets) != 1 || len(rets[0].Results) == 0 {
+		return nil, nil, false
+	}
+	end = strip(unspill(rets[0].Results[0]))
+	v := end
+	for i := 0; i < 64; i++ {
+		switch x := v.(type) {
+		case *ssa.Call:
+			name := calleeName(x)
+			if bi, isB := x.Call.Value.(*ssa.Builtin); isB && bi.Name() == "append" && len(x.Call.Args) == 2 {
+				writes = append([]bufWrite{{call: x, width: -1, val: x.Call.Args[1]}}, writes...)
+				v = strip(x.Call.Args[0])
+				continue
+			}
+			w := 0
+			switch name {
+			case "(encoding/binary.littleEndian).AppendUint16":
+				w = 2
+			case "(encoding/binary.littleEndian).AppendUint32":
+				w = 4
+			case "(encoding/binary.littleEndian).AppendUint64":
+				w = 8
+			default:
+				return nil, nil, false
+			}
+			if inCycle(x.Block()) {
+				return nil, nil, false
+			}
+			writes = append([]bufWrite{{call: x, width: w, val: x.Call.Args[len(x.Call.Args)-1]}}, writes...)
+			v = strip(x.Call.Args[len(x.Call.Args)-2])
+			continue
+		case *ssa.MakeSlice:
+			if k, isC := constInt(x.Len); isC && k == 0 {
+				return writes, end, len(writes) > 0
+			}
+			return nil, nil, false
+		case *ssa.Const:
+			if x.IsNil() {
+				return writes, end, len(writes) > 0
+			}
+			return nil, nil, false
+		default:
+			return nil, nil, false
+		}
+	}
+	return nil, nil, false
 }
